@@ -24,13 +24,17 @@ CHECKS = {
             "Contracts decide 'returns exactly True/False, error/error_pos/result well formed'; "
             "the step budget decides hangs logically; scaling ratios decide super-linear cost. "
             "Workloads: token enumeration, byte-level mutation incl. invalid UTF-8 and "
-            "truncation at every offset, str/bytes/parse_file entry points, identifiers taken "
+            "truncation at every offset, one dimension of an ordinary script at numeric boundaries "
+            "(255..259 items, 1023..1025/4095..4097/65536 octets, numbers of up to 20000 digits), "
+            "bytes/bytearray/str/parse_file/debug-switch entry routes, identifiers taken "
             "from run-time introspection of sievelib.commands.",
             "Budget 20000+3000*len line events; CPU-time verdicts need 3 confirmations, "
             "otherwise inconclusive."),
     "C03": ("exploration", "DESIGN.md §2 C03",
             "runtime monitoring: token-conservation monitor + isomorphism with an independent "
-            "generic-grammar tree over every accepted execution",
+            "generic-grammar tree over every accepted execution; entry-point differential "
+            "(parse(bytes)/parse(str)/parse_file) and deferred re-read of Parser objects after "
+            "other Parser objects ran",
             "For each accepted input the harness walks Parser.result with its own walker and "
             "checks (1) multiset of source tokens == multiset in the tree, (2) tree == R-SIEVE "
             "generic tree (flattened argument order, tests, blocks).",
@@ -85,12 +89,15 @@ CHECKS = {
     "C12": ("exploration", "DESIGN.md §3 C12",
             "runtime monitoring: icontract class invariants on the real FiltersSet + lock-step "
             "postconditions against an executable list model (R-LIST); exhaustive short "
-            "histories",
+            "histories; isolation monitor over pairs of live sets",
             "All operation sequences up to length 3 (quick) / 4 (thorough) over 42 operations "
             "on 3 names, plus random sequences up to 25, are executed on the real class with "
             "invariants (unique names; enabled flag == is_filter_disabled == rendering wrapped "
             "in if-false) evaluated after every public call and every return value / exception "
-            "/ order / enabled flag / getfilter content compared with the model step by step.",
+            "/ order / enabled flag / getfilter content compared with the model step by step. "
+            "Names are handed over as str and as UTF-8 bytes; pairs of live sets (fresh, or "
+            "loaded from one Parser result) receive operations alternately and the untouched "
+            "one must not change.",
             "Trusted: RList model in rv/factlab.py. Exhaustive only up to the stated length."),
     "C19": ("exploration", "DESIGN.md §3 C19",
             "runtime monitoring: read-back equality monitor over four views (original, "
@@ -126,7 +133,9 @@ CHECKS = {
             "server byte stream (scriptable recording transport) + sentinel operations + "
             "quiescence monitor",
             "For each (operation, reply stream) the real Client is run under every single cut, "
-            "every pair of cuts for short streams, per-call caps 1/2/3/7/64 and random splits; "
+            "every pair of cuts for short streams, per-call caps 1/2/3/7/64 and random splits "
+            "(replies sized on multiples of the 4096-octet read size included; streams with "
+            "non-ASCII octets also with the client's debug switch on); "
             "the outcome of the operation and of two sentinel operations must equal the outcome "
             "under whole delivery, and no byte may be left unread.",
             "Baseline is single-segment delivery of the same stream; recv() never blocks."),
